@@ -89,7 +89,7 @@ void canary_plans(const std::string &prop, CanaryList &out) {
     p.world.mem_policy = 1;
     std::vector<std::string> big(900, "mov rcx, 0x1122334455667788");
     p.tasks[0].ops = {create(-1, 1), asm_lines(big, 2)};
-    out.push_back({"stale_mremap_address", {p, "outside_write"}});
+    out.push_back({"stale_mremap_address", {p, "outside_write|crash|sim_reject|code_ptr"}});
   }
   if (prop == "C17" || prop == "C19" || prop == "C20") {  // the written file lacks its last byte
     Plan p = base("file");
